@@ -11,6 +11,7 @@ from typing import (
     Callable,
     Dict,
     Generic,
+    List,
     Mapping,
     Optional,
     Type,
@@ -106,13 +107,11 @@ class Runtime:
     """
 
     handlers: Mapping[Type[Request], Handler]
-    previous: Optional["Runtime"]
 
     def __init__(
         self, handlers: Optional[Mapping[Type[Request], Handler]] = None
     ) -> None:
         self.handlers = {**_DEFAULT_HANDLERS, **(handlers or {})}
-        self.previous = None
 
     def handle(
         self,
@@ -189,8 +188,7 @@ class Runtime:
     def __exit__(self, exc_type, exc_value, traceback):
         with lock:
             _RUNTIMES[threading.current_thread()] = self.previous
-            self.previous = None
-
+    
 
 _RUNTIMES: Dict[threading.Thread, Runtime] = {}
 
